@@ -1302,6 +1302,8 @@ func (fr *frame) invoke(fn value, args []value, cc *ssa.CallCommon) value {
 			panic(pathEnd{kind: "panic", msg: "call of nil func in " + fr.fn.String()})
 		}
 		return st.callFunction(fr, fn.Fn, append(args, fn.Env...), cc)
+	case goFunc:
+		return fn(st, args)
 	case string:
 		switch fn {
 		case "err.Error":
